@@ -235,7 +235,7 @@ def joinSame : List Entry → List Entry
 
 /-- `read_file` on the content of a file. -/
 def parseBytes (cfg : Cfg) (content : Str) : Except (Err × Nat) PState :=
-  let cfg := { cfg with comment := if cfg.comment.isEmpty then bs "#" else cfg.comment }
+  let cfg := { cfg with comment := if cfg.comment.isEmpty then [0x23] /- "#" -/ else cfg.comment }
   match parseLines cfg {} (splitLines content) with
   | .error e => .error e
   | .ok st => .ok (if cfg.join then { st with entries := joinSame st.entries } else st)
